@@ -43,7 +43,39 @@ def run(chk):
         # a second process state: different heap layout before compiling
         cases.append(("b%d" % i, ["junk %d %d" % (r.range(1, 50), r.choice([24, 100, 4096, 70000]))] + cmds + ["getrules", "save"]))
         meta[i] = (d, bufs)
+    # dense automata: a state with children for the extreme byte values (00, FF) declared first, then k one-byte strings that fill the
+    # packed transition table; sweeping k moves that state over every slot position relative to the end of the table (what is written
+    # to the spare capacity of a buffer is not saved)
+    dense = []
+    for step in ((2,) if tier == "quick" else (1, 2, 3)):
+        for k in range(1, 254 // step):
+            vals = [0xfe - step * j for j in range(k)]
+            pfx = 1 if tier == "quick" else chk.rng.choice([1, 0x41])
+            src = ("rule dense { strings: $x0 = { %02X 00 } $x1 = { %02X FF } %s condition: any of them }\n"
+                   % (pfx, pfx, " ".join("$l%02x = { %02X }" % (v, v) for v in vals)))
+            buf = bytes([0x20, pfx, 0x00, 0x20, pfx, 0xFF, 0x20]) + bytes(vals[:3]) + bytes([vals[-1]])
+            dense.append((src, buf))
+            cases.append(("d%d" % (len(dense) - 1), ["newcompiler", "add " + hx(src.encode()), "getrules", "scanner 0", "scan " + hx(buf), "save", "reload",
+                                                     "use loaded", "scanner 1", "scan " + hx(buf)]))
     out, err = vlib.run_cases(hscan, cases, timeout=3000, jobs=16)
+    dense_ok = 0
+    for j, (src, buf) in enumerate(dense):
+        ld = out.get("d%d" % j, [])
+        sc = [l for l in ld if l.startswith("scan msgs=")]
+        replay = {"sources": [src], "buffer_hex": hx(buf), "output_tail": [l[:300] for l in ld[-4:]],
+                  "how": "h_scan: newcompiler; add <source>; getrules; scanner 0; scan <buffer>; save; reload; use loaded; scanner 1; scan <buffer>"}
+        if any(l.startswith("crash") for l in ld):
+            chk.violation("crash", "save/load/scan of a dense rule set crashes: %s" % [l for l in ld if l.startswith("crash")][:1], replay)
+        elif len(sc) != 2 or "reload rc=0" not in ld:
+            chk.violation("norun", "dense scenario did not run to the end: %s" % ld[-3:], replay, found_input=False)
+        elif sc[0] != sc[1]:
+            chk.violation("loaded-scan", "loaded rules report differently (rule with %d one-byte strings after two strings with 00/FF edges): original %s ; loaded %s"
+                          % (src.count("$l"), sc[0][:200], sc[1][:200]), replay)
+        elif "$x0=1/2/2/0,|" not in sc[0] or "$x1=4/2/2/0,|" not in sc[0]:
+            chk.violation("dense-reference", "the strings with 00/FF edges are not both found exactly once by the original rules: %s" % sc[0][:300], replay)
+        else:
+            dense_ok += 1
+    chk.note(dense_automata=len(dense), dense_agree=dense_ok)
     certq, certid = [], []
     agree = 0
     nontriv = set()
